@@ -331,9 +331,14 @@ def f_int_arith(c):
         t = same_vec_params(c, 2)
         if t and t.kind == 'vec' and t.isint and c.RT.ct == t.ct:
             sp, op = ARITH_BIN[c.name]
-            return lanewise_fn(c, t, lambda i: '%s(%s, %s, %d)' % (sp, t.lane(c.a(0), i), t.lane(c.a(1), i), t.bits),
+            k = lanewise_fn(c, t, lambda i: '%s(%s, %s, %d)' % (sp, t.lane(c.a(0), i), t.lane(c.a(1), i), t.bits),
                                ['C01'], 'int_' + c.name, '({0} %s {1})' % op, heavy=(sp == 'spec_mul' and t.bits >= 32),
                                flags=mul_flags(t, sp))
+            if sp == 'spec_mul' and t.bits >= 16:
+                fw = compound_forwarding(c, t, k, 'operator*=')
+                if fw:
+                    return fw
+            return k
     if c.kind == 'function' and c.name == 'operator-' and len(c.P) == 1 and c.PT[0].kind == 'vec' and c.PT[0].isint and not c.P[0]['ref'] \
             and c.RT and c.RT.kind == 'vec' and c.RT.isint and c.RT.W == c.PT[0].W and c.RT.bits == c.PT[0].bits:
         t = c.PT[0]
@@ -673,6 +678,168 @@ def div_mode(k, t, ylane, xlane=None):
     return k
 
 
+def compound_forwarding(c, t, k, compound):
+    """binary operator generated by AVEL_VECTOR_ARITHMETIC_OPERATORS: `lhs op= rhs; return lhs;`.  Forwarding contract for all
+    operand values: the compound form is replaced by an abstract contract -- called on an object holding lhs with argument rhs
+    [checked at the call site], it leaves one fixed but arbitrary value ghost_res in the object -- and the binary operator
+    must return exactly that value.  What the compound form computes is its own contract."""
+    F = c.db['functions']
+    callee = None
+    for cal in c.fn.get('calls', []):
+        cf = F.get(cal)
+        if cf and not cf.get('error') and cf.get('kind') == 'method' and cf.get('name') == compound and cf.get('owner') == t.ct \
+                and len(cf['params']) == 1 and cf['params'][0]['ctype'] == t.ct and not cf['params'][0]['ref']:
+            callee = cal
+    if not callee:
+        return None
+    cf = F[callee]
+    pr = cf['params'][0]['name']
+    if t.repr in ('m128', 'm256', 'm512'):
+        nw = {'m128': 2, 'm256': 4, 'm512': 8}[t.repr]
+        same = lambda a, b: ' && '.join('(%s).content.q[%d] == (%s).content.q[%d]' % (a, j, b, j) for j in range(nw))
+    else:
+        same = lambda a, b: '%s == %s' % (t.lane(a, 0), t.lane(b, 0))
+    abstract = Contract('compound_abstract', [], requires=[same('(*this)', 'ghost_lhs'), same(pr, 'ghost_rhs')],
+                        ensures=[('abstract compound form: result', same('(*this)', 'ghost_res'))] + ([('abstract compound form: returns *this', '%s == this' % RV)] if cf.get('ret_ref') else []),
+                        assigns=['*this'])
+    k2 = Contract(k.family, k.props, requires=[], cxx=k.cxx, flags=[], assigns=[],
+                  ensures=[('%s returns what %s left in lhs, lane %d' % (k.family, compound, i), '%s == %s' % (t.lane(RV, i), t.lane('ghost_res', i))) for i in range(t.W)])
+    k2.ghosts = ['%s ghost_lhs, ghost_rhs, ghost_res;' % t.ct]
+    k2.setup = ['ghost_lhs = a0;', 'ghost_rhs = a1;']
+    k2.replace_with = {callee: abstract}
+    k2.forwarding = True
+    k2.fallback = k          # a failed forwarding obligation is not a violation: the direct lane-wise contract decides
+    return k2
+
+
+def has_loops(db, fn, depth=4):
+    F = db['functions']
+    seen = set()
+    front = [fn['cname']]
+    for _ in range(depth):
+        nxt = []
+        for cn in front:
+            f = F.get(cn) or {}
+            if f.get('loops'):
+                return True
+            for cal in f.get('calls', []):
+                if cal not in seen:
+                    seen.add(cal)
+                    nxt.append(cal)
+        front = nxt
+    return False
+
+
+def div32_contract(c, t, x, y):
+    """div of the 32-bit SIMD vectors.
+    Shift-subtract branches (SSE2..AVX2): the loop runs at most 32 times -- fully unwound with unwinding assertions (complete,
+    not bounded) -- and the post-condition is the EUCLIDEAN WITNESS in the multiplier-free form in which such dividers
+    accumulate (spec_subchain): rem < y and x - sum_j quot_j * (y << j) == rem, which lemma L5 (Lean) shows equivalent to
+    quot == x / y and rem == x % y.  Signed types (abs / unsigned div / negate): the same witness on the magnitudes plus the
+    C sign rules.  AVX-512 branches (vcvtudq2pd, vdivpd, vcvttpd2udq): routing contract with the FPU divide uninterpreted --
+    quot == trunc(fdiv((double)x, (double)y)), rem == x - quot * y -- and the named assumption A1 (trunc of the rounded
+    binary64 quotient of two 32-bit integers is their integer quotient).  One lane per solver call."""
+    W = t.W
+    Q, R = '(%s).quot' % RV, '(%s).rem' % RV
+    MIN = 1 << 31
+    ens = []
+    if has_loops(c.db, c.fn):
+        for i in range(W):
+            xl, yl, ql, rl = t.lane(x, i), t.lane(y, i), t.lane(Q, i), t.lane(R, i)
+            if not t.signed:
+                ens.append(('div remainder below divisor lane %d' % i, '%s == 0 || %s < %s' % (yl, rl, yl)))
+                ens.append(('div Euclidean witness lane %d' % i, '%s == 0 || spec_subchain(%s, %s, %s, 32) == %s' % (yl, xl, ql, yl, rl)))
+            else:
+                mag = lambda e: '((%s & 0x80000000ull) ? ((0 - %s) & 0xffffffffull) : %s)' % (e, e, e)
+                neg = lambda e: '((%s & 0x80000000ull) != 0)' % e
+                g = '(%s == 0 || (%s == %dull && %s == 0xffffffffull))' % (yl, xl, MIN, yl)
+                ens.append(('div remainder magnitude below divisor magnitude lane %d' % i, '%s || %s < %s' % (g, mag(rl), mag(yl))))
+                ens.append(('div Euclidean witness on magnitudes lane %d' % i, '%s || spec_subchain(%s, %s, %s, 32) == %s' % (g, mag(xl), mag(ql), mag(yl), mag(rl))))
+                ens.append(('div sign rules lane %d' % i, '%s || ((%s == 0 || %s == (%s != %s)) && (%s == 0 || %s == %s))' % (g, ql, neg(ql), neg(xl), neg(yl), rl, neg(rl), neg(xl))))
+        k = Contract('int_div', ['C05'], ensures=ens, cxx='avel::div({0}, {1})', flags=['div', 'split'])
+        k.unwind = 34
+        k.modulo_lemma = 'L5 (euclid_witness, AvelLemmas.lean): remainder below the divisor and the multiplier-free Euclidean witness <=> quot == x / y, rem == x % y'
+        return k
+    if t.signed:
+        # abs / unsigned FP-routed div / negate
+        mag = lambda e: '((%s & 0x80000000ull) ? ((0 - %s) & 0xffffffffull) : %s)' % (e, e, e)
+        neg = lambda e: '((%s & 0x80000000ull) != 0)' % e
+        for i in range(W):
+            xl, yl, ql, rl = t.lane(x, i), t.lane(y, i), t.lane(Q, i), t.lane(R, i)
+            g = '(%s == 0 || (%s == %dull && %s == 0xffffffffull))' % (yl, xl, MIN, yl)
+            uq = '(uint64_t)avm_cvtt_f64_u32(AVM_FDIV_f64((double)(uint32_t)%s, (double)(uint32_t)%s))' % (mag(xl), mag(yl))
+            ens.append(('div quotient = sign-adjusted truncated binary64 quotient of the magnitudes lane %d' % i,
+                        '%s || %s == ((%s != %s) ? ((0 - %s) & 0xffffffffull) : %s)' % (g, ql, neg(xl), neg(yl), uq, uq)))
+            ur1 = '((%s - %s * %s) & 0xffffffffull)' % (mag(xl), uq, mag(yl))
+            ur2 = '((%s - %s * %s) & 0xffffffffull)' % (mag(xl), mag(yl), uq)
+            ens.append(('div remainder = sign of x, magnitude |x| - uq * |y| (uq the unsigned quotient) lane %d' % i,
+                        '%s || %s == (%s ? ((0 - %s) & 0xffffffffull) : %s) || %s == (%s ? ((0 - %s) & 0xffffffffull) : %s)' % (
+                            g, rl, neg(xl), ur1, ur1, rl, neg(xl), ur2, ur2)))
+        k = Contract('int_div', ['C05'], ensures=ens, cxx='avel::div({0}, {1})', flags=['div', 'split'])
+        k.defines = ['AVM_FP_UF']
+        k.modulo_lemma = 'A1 (assumption, not proved), applied to the magnitudes'
+        return k
+    for i in range(W):
+        xl, yl, ql, rl = t.lane(x, i), t.lane(y, i), t.lane(Q, i), t.lane(R, i)
+        fq = '(uint64_t)avm_cvtt_f64_u32(AVM_FDIV_f64((double)(uint32_t)%s, (double)(uint32_t)%s))' % (xl, yl)
+        ens.append(('div quotient = truncated binary64 quotient lane %d' % i, '%s == 0 || %s == %s' % (yl, ql, fq)))
+        # either operand order of the 32 x 32 product (a multiplier circuit is not commutative for a SAT solver)
+        ens.append(('div remainder = x - quot * y lane %d' % i, '%s == 0 || %s == ((%s - %s * %s) & 0xffffffffull) || %s == ((%s - %s * %s) & 0xffffffffull)' % (
+            yl, rl, xl, ql, yl, rl, xl, yl, ql)))
+    k = Contract('int_div', ['C05'], ensures=ens, cxx='avel::div({0}, {1})', flags=['div', 'split'])
+    k.defines = ['AVM_FP_UF']
+    k.modulo_lemma = 'A1 (assumption, not proved): for 32-bit unsigned x and y != 0, truncating the correctly rounded binary64 quotient x / y gives floor(x / y) in every rounding mode'
+    return k
+
+
+def find_div_callee(db, fn, t, depth=3):
+    """cname of avel::div(V, V) reached (transitively, through the compound form) from fn"""
+    F = db['functions']
+    seen = set()
+    front = [fn['cname']]
+    for _ in range(depth):
+        nxt = []
+        for cn in front:
+            for cal in (F.get(cn) or {}).get('calls', []):
+                if cal in seen:
+                    continue
+                seen.add(cal)
+                cf = F.get(cal)
+                if not cf or cf.get('error'):
+                    continue
+                if cf.get('name') == 'div' and len(cf['params']) == 2 and all(p['ctype'] == t.ct and not p['ref'] for p in cf['params']) \
+                        and re.match(r'^Div_Vec_', cf.get('ret') or ''):
+                    return cal
+                nxt.append(cal)
+        front = nxt
+    return None
+
+
+def div_forwarding(c, t, k, lhs, rhs, target, field, k_direct=None):
+    """operator / % /= %= of the SIMD integer vectors forward to div(lhs, rhs).  Forwarding contract, for ALL operand
+    values: div is replaced by an abstract contract -- called with exactly (lhs, rhs) [checked at the call site], it returns
+    one fixed but arbitrary pair ghost_dres -- and the operator must deliver that pair's quot (rem) field, lane for lane.
+    What div itself returns is div's own contract (int_div)."""
+    callee = find_div_callee(c.db, c.fn, t)
+    if not callee or t.repr not in ('m128', 'm256', 'm512'):
+        return None
+    cf = c.db['functions'][callee]
+    px, py = cf['params'][0]['name'], cf['params'][1]['name']
+    nw = {'m128': 2, 'm256': 4, 'm512': 8}[t.repr]
+    same = lambda a, b: ' && '.join('(%s).content.q[%d] == (%s).content.q[%d]' % (a, j, b, j) for j in range(nw))
+    abstract = Contract('int_div_abstract', [], requires=[same(px, 'ghost_dx'), same(py, 'ghost_dy')],
+                        ensures=[('abstract div: quot', same('(%s).quot' % RV, 'ghost_dres.quot')), ('abstract div: rem', same('(%s).rem' % RV, 'ghost_dres.rem'))])
+    k2 = Contract(k.family, k.props, requires=[], cxx=k.cxx, flags=[], assigns=list(k.assigns),
+                  ensures=[('%s delivers the %s field of div(lhs, rhs) lane %d' % (k.family, field, i), '%s == %s' % (t.lane(target, i), t.lane('ghost_dres.' + field, i))) for i in range(t.W)]
+                          + [(l, e) for l, e in k.ensures if 'returns' in l])
+    k2.ghosts = ['%s ghost_dx, ghost_dy;' % t.ct, '%s ghost_dres;' % cf['ret']]
+    k2.setup = ['ghost_dx = %s;' % lhs, 'ghost_dy = %s;' % rhs]
+    k2.replace_with = {callee: abstract}
+    k2.forwarding = True
+    k2.fallback = k_direct   # a failed forwarding obligation is not a violation: the direct (partial-domain) contract decides
+    return k2
+
+
 @family
 def f_div(c):
     if c.kind == 'function' and c.name == 'div' and len(c.P) == 2:
@@ -689,6 +856,8 @@ def f_div(c):
             ens.append(('div quot lane %d' % i, '!%s || %s' % (g, eq_lane(t, '(%s).quot' % RV, i, '%s(%s, %s, %d)' % (dq, t.lane(x, i), t.lane(y, i), t.bits)))))
             ens.append(('div rem lane %d' % i, '!%s || %s' % (g, eq_lane(t, '(%s).rem' % RV, i, '%s(%s, %s, %d)' % (dr, t.lane(x, i), t.lane(y, i), t.bits)))))
         req = [div_guard(t, x, y, 0)] if t.W == 1 else []
+        if t.W > 1 and t.bits == 32:
+            return div32_contract(c, t, x, y)
         return div_mode(Contract('int_div', ['C05'], requires=req, ensures=ens, cxx='avel::div({0}, {1})', flags=['div']), t, lambda i: t.lane(y, i), lambda i: t.lane(x, i))
     if c.kind == 'method' and c.name in ('operator/=', 'operator%=') and c.OT and c.OT.kind == 'vec' and c.OT.isint and len(c.P) == 1 and c.PT[0].ct == c.OT.ct:
         t = c.OT
@@ -696,10 +865,17 @@ def f_div(c):
         quot = c.name == 'operator/='
         sp = ('spec_sdiv' if quot else 'spec_srem') if t.signed else ('spec_udiv' if quot else 'spec_urem')
         req = [div_guard(t, this, c.a(0), 0)] if t.W == 1 else []
-        return div_mode(compound_method(c, t, lambda i: '%s(%s, %s, %d)' % (sp, OLD(t.lane(this, i)), t.lane(c.a(0), i), t.bits), ['C05'], 'int_' + c.name,
+        k = compound_method(c, t, lambda i: '%s(%s, %s, %d)' % (sp, OLD(t.lane(this, i)), t.lane(c.a(0), i), t.bits), ['C05'], 'int_' + c.name,
                                '({this} %s {0})' % c.name[8:], req=req,
                                per_lane_guard=lambda i: 'spec_div_defined(%s, %s, %d, %d)' % (OLD(t.lane(this, i)), t.lane(c.a(0), i), t.bits, t.signed),
-                               flags=['div']), t, lambda i: t.lane(c.a(0), i), lambda i: t.lane(this, i))
+                               flags=['div'])
+        if t.W > 1:
+            import copy as _copy
+            kd = div_mode(_copy.copy(k), t, lambda i: t.lane(c.a(0), i), lambda i: t.lane(this, i)) if t.bits != 32 else None
+            fw = div_forwarding(c, t, k, 'self_obj', 'a0', this, 'quot' if quot else 'rem', kd)
+            if fw:
+                return fw
+        return div_mode(k, t, lambda i: t.lane(c.a(0), i), lambda i: t.lane(this, i))
     if c.kind == 'function' and c.name in ('operator/', 'operator%') and len(c.P) == 2:
         t = same_vec_params(c, 2)
         if not t or t.kind != 'vec' or not t.isint or c.RT.ct != t.ct:
@@ -707,8 +883,15 @@ def f_div(c):
         quot = c.name == 'operator/'
         sp = ('spec_sdiv' if quot else 'spec_srem') if t.signed else ('spec_udiv' if quot else 'spec_urem')
         req = [div_guard(t, c.a(0), c.a(1), 0)] if t.W == 1 else []
-        return div_mode(lanewise_fn(c, t, lambda i: '%s(%s, %s, %d)' % (sp, t.lane(c.a(0), i), t.lane(c.a(1), i), t.bits), ['C05'], 'int_' + c.name,
-                           '({0} %s {1})' % c.name[8:], req=req, per_lane_guard=lambda i: div_guard(t, c.a(0), c.a(1), i), flags=['div']), t, lambda i: t.lane(c.a(1), i), lambda i: t.lane(c.a(0), i))
+        k = lanewise_fn(c, t, lambda i: '%s(%s, %s, %d)' % (sp, t.lane(c.a(0), i), t.lane(c.a(1), i), t.bits), ['C05'], 'int_' + c.name,
+                           '({0} %s {1})' % c.name[8:], req=req, per_lane_guard=lambda i: div_guard(t, c.a(0), c.a(1), i), flags=['div'])
+        if t.W > 1:
+            import copy as _copy
+            kd = div_mode(_copy.copy(k), t, lambda i: t.lane(c.a(1), i), lambda i: t.lane(c.a(0), i)) if t.bits != 32 else None
+            fw = div_forwarding(c, t, k, 'a0', 'a1', RV, 'quot' if quot else 'rem', kd)
+            if fw:
+                return fw
+        return div_mode(k, t, lambda i: t.lane(c.a(1), i), lambda i: t.lane(c.a(0), i))
     return None
 
 
@@ -1340,6 +1523,10 @@ def f_denominator(c):
             if bc and sc:
                 k.denom['broadcast'] = (bc, sc)
                 k.extra_roots += [bc, sc]
+        if c.name in ('operator/', 'operator%'):
+            fw = denom_forwarding(c, t, k, 'quot' if c.name == 'operator/' else 'rem')
+            if fw:
+                return fw
         return k
     if c.kind == 'function' and c.name in ('operator/=', 'operator%=') and len(c.P) == 2 and c.P[0]['ref'] and c.P[1]['ctype'].startswith('Denom_') and not c.P[1]['ref']:
         di = denom_info(c.P[1]['ctype'], S)
@@ -1380,6 +1567,9 @@ def f_denominator(c):
             if bc and sc:
                 k.denom['broadcast'] = (bc, sc)
                 k.extra_roots += [bc, sc]
+        fw = denom_forwarding(c, t, k, 'quot' if c.name == 'operator/=' else 'rem')
+        if fw:
+            return fw
         return k
     if c.kind == 'method' and c.name == 'value' and fn.get('owner', '').startswith('Denom_') and not c.P:
         di = denom_info(fn['owner'], S)
@@ -1394,6 +1584,64 @@ def f_denominator(c):
             ens = [('value()', '%s == %s' % (t.lane(RV, 0), st.lane('(*this).m.d', 0)))]
         return Contract('denom_value', ['C14'] if not vec else ['C15'], ensures=ens, cxx='{this}.value()')
     return None
+
+
+def same_val(a, b, ct, S):
+    """bit-for-bit equality of two values of extracted type ct (records field by field, SIMD registers word by word)"""
+    if ct in ('m128', 'm256', 'm512'):
+        return ' && '.join('(%s).q[%d] == (%s).q[%d]' % (a, j, b, j) for j in range({'m128': 2, 'm256': 4, 'm512': 8}[ct]))
+    if S.get(ct):
+        return ' && '.join('(%s)' % same_val('(%s).%s' % (a, f), '(%s).%s' % (b, f), ft, S) for f, ft in S[ct])
+    if ct == '_Bool':
+        return '(_Bool)(%s) == (_Bool)(%s)' % (a, b)
+    return '(%s) == (%s)' % (a, b)
+
+
+def denom_forwarding(c, t, k, field):
+    """operator / % /= %= with a Denominator forward to div(n, denom): forwarding contract for ALL numerators and ALL
+    denominator objects (every field value), div replaced by an abstract contract as in div_forwarding"""
+    S = c.S
+    F = c.db['functions']
+    nct, dct = t.ct, c.P[1]['ctype']
+    callee = None
+    seen = set()
+    front = [c.fn['cname']]
+    for _ in range(3):
+        nxt = []
+        for cn in front:
+            for cal in (F.get(cn) or {}).get('calls', []):
+                if cal in seen:
+                    continue
+                seen.add(cal)
+                cf = F.get(cal)
+                if not cf or cf.get('error'):
+                    continue
+                if cf.get('name') == 'div' and len(cf['params']) == 2 and cf['params'][0]['ctype'] == nct and cf['params'][1]['ctype'] == dct \
+                        and not cf['params'][0]['ref'] and not cf['params'][1]['ref']:
+                    callee = cal
+                nxt.append(cal)
+        front = nxt
+        if callee:
+            break
+    if not callee:
+        return None
+    cf = F[callee]
+    pn, pd = cf['params'][0]['name'], cf['params'][1]['name']
+    rct = cf['ret']
+    abstract = Contract('denom_div_abstract', [], requires=[same_val(pn, 'ghost_n', nct, S), same_val(pd, 'ghost_d', dct, S)],
+                        ensures=[('abstract div', same_val(RV, 'ghost_dres', rct, S))])
+    lhs_ref = c.P[0]['ref']
+    target = '(*%s)' % c.P[0]['name'] if lhs_ref else RV
+    ens = [('%s delivers the %s field of div(n, denom) lane %d' % (k.family, field, i), '%s == %s' % (t.lane(target, i), t.lane('ghost_dres.' + field, i))) for i in range(t.W)]
+    if lhs_ref:
+        ens.append(('returns the left operand', '%s == %s' % (RV, c.P[0]['name'])))
+    k2 = Contract(k.family, k.props, requires=[], cxx=k.cxx, flags=[], assigns=list(k.assigns), ensures=ens)
+    k2.ghosts = ['%s ghost_n;' % nct, '%s ghost_d;' % dct, '%s ghost_dres;' % rct]
+    k2.setup = ['ghost_n = %s;' % ('a0_obj' if lhs_ref else 'a0'), 'ghost_d = a1;']
+    k2.replace_with = {callee: abstract}
+    k2.forwarding = True
+    k2.fallback = k
+    return k2
 
 
 def denom_variants(k, tier):
